@@ -281,13 +281,16 @@ func phRefTrace(cfg configure.Configure, tagStr string) (tr phTrace) {
 				v = nil
 				if len(sp) == 2 && sp[1] != "" {
 					d := sp[1]
-					if d == "'" || d == "\"" {
-						tr.loneQuote = true
-						return "", fmt.Errorf("stop")
-					}
 					var err error
-					if hx.Guard(func() { v, err = strconv2.ParseAny(d) }) != nil || err != nil {
-						tr.opaque = true
+					if pan := hx.Guard(func() { v, err = strconv2.ParseAny(d) }); pan != nil || err != nil {
+						// the real call ends here as well (error or panic). KF-C16-1: ParseAny on a lone quote character,
+						// as the default itself or as an element of a slice/map literal default
+						if pan != nil && strings.Contains(fmt.Sprint(pan), "slice bounds out of range [1:0]") {
+							tr.loneQuote = true
+						}
+						if !(d == "'" || d == "\"") {
+							tr.opaque = true
+						}
 						return "", fmt.Errorf("stop")
 					}
 					switch v.(type) {
@@ -533,7 +536,13 @@ type phCase struct {
 
 var phQuiet sync.Once
 
+// after a hang the spinning goroutine cannot be stopped; the verdict is fixed, so no further case is run
+var phHung bool
+
 func runPh(c phCase, w *hx.Writer) {
+	if phHung {
+		return
+	}
 	phQuiet.Do(func() { syslog.Level(syslog.LvPanic) }) // before the first syslog.Pref caches a logger
 	yamlBytes, err := yaml.Marshal(c.cfg.toAny())
 	if err != nil || len(c.cfg.xs) == 0 {
@@ -554,6 +563,7 @@ func runPh(c phCase, w *hx.Writer) {
 	}
 	switch r.obs {
 	case "hang":
+		phHung = true
 		out.Oracle = "FAIL placeholder-hang no answer within 5s"
 	case "panic":
 		msg := fmt.Sprint(r.pan)
